@@ -24,7 +24,7 @@ func init() {
 		{Name: "i32.div_u arm appends the div_s opcode", File: "internal/wat/watutil/wat2wasm_instruction.go", Old: "wasm.OpcodeI32DivU)", New: "wasm.OpcodeI32DivS)", Expect: "token-opcode :: i32.div_u"},
 		{Name: "memory.fill loses its memory index byte", File: "internal/wat/watutil/wat2wasm_instruction.go", Old: "wasm.OpcodeMiscMemoryFill, 0x00)", New: "wasm.OpcodeMiscMemoryFill)", Expect: "token-opcode :: memory.fill"},
 		{Name: "two token spellings swapped", File: "internal/wat/token/token.go", Old: "INS_I64_SHR_S:           \"i64.shr_s\",", New: "INS_I64_SHR_S:           \"i64.shr_u\",", Expect: "token-"},
-		{Name: "vendored opcode constant changed", File: "internal/wasm/instruction.go", Old: "OpcodeI64Rotl Opcode = 0x89", New: "OpcodeI64Rotl Opcode = 0x8a", Expect: "i64.rotl"},
+		{Name: "vendored opcode constant changed", File: "internal/wasm/instruction.go", Old: "OpcodeI64Rotl   Opcode = 0x89", New: "OpcodeI64Rotl   Opcode = 0x8a", Old2: "OpcodeI64Rotr   Opcode = 0x8a", New2: "OpcodeI64Rotr   Opcode = 0x89", Expect: "i64.rotl"},
 		{Name: "i64.load16_s default alignment 4", File: "internal/wat/parser/module_func_instruction.go", Old: "i.Align = 2", New: "i.Align = 4", Nth: 2, Expect: "default-align"},
 		{Name: "findFuncIndex drops the import count", File: "internal/wat/watutil/wat2wasm_helper.go", Old: "return wasm.Index(importCount + i)\n\t\t}\n\t}\n\tpanic(fmt.Sprintf(\"wat2wasm: unknown func", New: "return wasm.Index(i)\n\t\t}\n\t}\n\tpanic(fmt.Sprintf(\"wat2wasm: unknown func", Expect: "index-space :: findFuncIndex"},
 		{Name: "findGlobalIndex counts imports of every kind", File: "internal/wat/watutil/wat2wasm_helper.go", Old: "if x.ObjKind == token.GLOBAL {\n\t\t\tif x.GlobalName == ident {", New: "if x.ObjKind != token.FUNC {\n\t\t\tif x.GlobalName == ident {", Expect: "index-space :: findGlobalIndex"},
